@@ -1,0 +1,43 @@
+//go:build verif
+
+// Contracts for package graphsync (the data-transfer transport over go-graphsync; comment-only, build tag verif).
+// Checked by /verif (contract-based deductive verification); see /verif/DESIGN.md.
+package graphsync
+
+//@ interface graphsync.BlockData
+//@   pure Link, BlockSize, BlockSizeOnWire, Index
+//@ interface graphsync.RequestData
+//@   pure ID
+//@ interface graphsync.ResponseData
+//@   pure RequestID
+
+//@ type requestIDToChannelIDMap
+//@   nonnil m
+//@   lock lk guards m
+//@ type Transport
+//@   nonnil gs, requestIDToChannelID, dtChannels
+//@   lock dtChannelsLk guards dtChannels
+//@   invariant dtChannelsLk [tracked-nonnil] {C16,C20} forall k datatransfer.ChannelID :: has(self.dtChannels, k) ==> self.dtChannels[k] != nil
+//@ type dtChannel
+//@   nonnil t, opened
+//@   lock lk guards isOpen, requestID, completed, requesterCancelled, xferStarted, pendingExtensions
+//@   lock optionsLk guards storeRegistered, maxLinksOption
+
+// ---------------------------------------------------------------------------------------------
+// request id -> channel id map (C16)
+
+//@ func (*graphsync.requestIDToChannelIDMap).load {C16,C20}
+//@   reads
+//@   ensures [lookup] untouched
+//@ func (*graphsync.requestIDToChannelIDMap).set {C16,C20}
+//@   modifies m.m
+//@   guarantee [sets-only-key] forall k graphsync.RequestID :: (k == key ==> has(self.m, k) && self.m[k].channelID == chid && self.m[k].sending == sending) &&
+//@       (k != key ==> has(self.m, k) == old(has(self.m, k)) && (has(self.m, k) ==> self.m[k] == old(self.m[k])))
+//@ func (*graphsync.requestIDToChannelIDMap).deleteRefs {C16,C20}
+//@   modifies m.m
+//@   loop 0 invariant [progress] forall k graphsync.RequestID ::
+//@       (has(m.m, k) ==> old(has(m.m, k)) && m.m[k] == old(m.m[k])) &&
+//@       (old(has(m.m, k)) && old(m.m[k]).channelID != id ==> has(m.m, k)) &&
+//@       (visited(k) && old(has(m.m, k)) && old(m.m[k]).channelID == id ==> !has(m.m, k))
+//@   guarantee [exact] forall k graphsync.RequestID :: (has(self.m, k) <==> old(has(self.m, k)) && old(self.m[k]).channelID != id) &&
+//@       (has(self.m, k) ==> self.m[k] == old(self.m[k])) -- every request id of the channel is forgotten, every other mapping is kept
